@@ -23,7 +23,7 @@ func init() {
 	run.Register(&run.Check{
 		ID:    "C19",
 		Level: "fault_enumeration",
-		Rule: "fault enumeration: conflict kind (7: equal ANP priorities, ANP priority outside 0..1000, duplicate ANP name, duplicate NetworkPolicy name in one namespace, two BANPs, BANP not named default, pods of one owner with different labels) x number of other admin policies {0,1,2,3,5,8,11,12,13,20,31,64,200} x position of the conflicting documents {first,last,adjacent,far apart,median} x route {list, diff with the conflict in dir1, in dir2}, file placement random; the conflicting admin policy has rules in one direction, in both, or no rule at all; a third of the duplicate-name / two-BANP conflicts are the very same document twice; fillers include rule-less policies and the legal boundary priorities 0 and 1000; in 30% of the cells a stray non-manifest / malformed file (a severe, recoverable error) is read before or after the conflict, in the twin too; " +
+		Rule: "fault enumeration: conflict kind (7: equal ANP priorities, ANP priority outside 0..1000, duplicate ANP name, duplicate NetworkPolicy name in one namespace, two BANPs, BANP not named default, pods of one owner with different labels - every way two label sets can differ, including a label controllers set per pod; one to three equal replicas before the odd one -) x number of other admin policies {0,1,2,3,5,8,11,12,13,20,31,64,200} x position of the conflicting documents {first,last,adjacent,far apart,median} x route {list, diff with the conflict in dir1, in dir2}, file placement random; the conflicting admin policy has rules in one direction, in both, or no rule at all; a third of the duplicate-name / two-BANP conflicts are the very same document twice; fillers include rule-less policies and the legal boundary priorities 0 and 1000; in 30% of the cells a stray non-manifest / malformed file (a severe, recoverable error) is read before or after the conflict, in the twin too; " +
 			"each cell is run with the conflict (expected: error returned, no connections, a fatal entry in Errors(), message naming the conflict) and as a conflict-free twin (expected: clean analysis), so an oracle that fires on everything is caught; " +
 			"non-trivial = the conflict-free twin analysed cleanly with a non-empty report; distinct = cell + filler hash",
 		Assumptions:       []string{"'naming the conflict' = the message contains one of the conflicting resource names, the offending priority value, or the words baseline/default for the BANP kinds", "exposure mode is out of scope (it rejects every ANP)"},
@@ -71,18 +71,32 @@ func placeDocs(g *rng.R, others, conflict []world.Doc, pos string) []world.Doc {
 		}
 		return out
 	case "far-apart":
-		out := ins(others, 0, conflict[0])
+		// all conflicting documents but the last one at the start, the last one at the end
+		out := others
+		for i, d := range conflict[:maxInt(1, len(conflict)-1)] {
+			out = ins(out, i, d)
+		}
 		if len(conflict) > 1 {
-			out = append(out, conflict[1])
+			out = append(out, conflict[len(conflict)-1])
 		}
 		return out
 	default: // median
-		out := ins(others, n/2, conflict[0])
+		out := others
+		for i, d := range conflict[:maxInt(1, len(conflict)-1)] {
+			out = ins(out, n/2+i, d)
+		}
 		if len(conflict) > 1 {
-			out = ins(out, g.Intn(len(out)+1), conflict[1])
+			out = ins(out, g.Intn(len(out)+1), conflict[len(conflict)-1])
 		}
 		return out
 	}
+}
+
+func maxInt(a, b int) int {
+	if a > b {
+		return a
+	}
+	return b
 }
 
 func runC19(c *run.Ctx) {
@@ -220,7 +234,11 @@ func runC19(c *run.Ctx) {
 		p1 := world.Workload{Ns: ns, Name: "conflict-owner", Kind: world.KOwnedPods, NPods: 1, Labels: map[string]string{"app": "a"}}
 		p2 := p1
 		// every way two label sets can differ: other value, extra key, missing key, empty value vs missing key, empty vs non-empty value
-		switch g.Intn(6) {
+		switch g.Intn(7) {
+		case 6: // only a label that a controller sets per pod differs
+			k := rng.Pick(g, []string{"statefulset.kubernetes.io/pod-name", "apps.kubernetes.io/pod-index", "batch.kubernetes.io/job-completion-index", "controller-revision-hash", "pod-template-hash"})
+			p1.Labels = map[string]string{"app": "a", k: "conflict-owner-0"}
+			p2.Labels = map[string]string{"app": "a", k: "conflict-owner-1"}
 		case 0:
 			p2.Labels = map[string]string{"app": "b"}
 		case 1:
@@ -244,10 +262,16 @@ func runC19(c *run.Ctx) {
 			p2.OwnerKind = p1.Kind
 			r.Ev("owner_manifest_next_to_an_owned_pod", 1)
 		}
-		d1 := (&world.World{Workloads: []world.Workload{p1}}).Docs()[0]
+		extra := 0
+		if p1.NPods > 0 && g.P(0.4) { // one or two more replicas with the first pod's labels stand before the odd one
+			extra = 1 + g.Intn(2)
+			p1.NPods += extra
+			r.Ev("owner_label_mismatch_after_several_equal_replicas", 1)
+		}
+		d1 := (&world.World{Workloads: []world.Workload{p1}}).Docs()
 		d2 := (&world.World{Workloads: []world.Workload{p2}}).Docs()[0]
-		d2.YAML = strings.Replace(d2.YAML, "conflict-owner-x0", "conflict-owner-x1", 1)
-		conflict = []world.Doc{d1, d2}
+		d2.YAML = strings.Replace(d2.YAML, "conflict-owner-x0", "conflict-owner-x9", 1)
+		conflict = append(append([]world.Doc{}, d1[:1+extra]...), d2)
 		tokens = []string{"conflict-owner"}
 	}
 	// documents: the admin policies (where position matters) in one ordered block, the rest around them
